@@ -21,7 +21,10 @@ RULE = (
     "the same cases but run under different PYTHONHASHSEED values; the "
     "parent compares their first outcomes the same way. Non-trivial: the "
     "definition has a fork or a loop and the presentation differs from the "
-    "enumeration order. Distinct by SHA-1 of the JSON case.")
+    "enumeration order. One case in ten is a branch-count job set (chain, n "
+    "parallel copies of a chain for several n, optional tail - an upstream "
+    "feature outside the reference semantics), compared by ingested model "
+    "and by the emitted text up to branch order, annotations included. Distinct by SHA-1 of the JSON case.")
 ASSUMPTIONS = [
     "container iteration order is driven by the patched uuid4 (schedule "
     "seeds) and by PYTHONHASHSEED (16 values sampled)",
@@ -89,7 +92,20 @@ def outcome_digest(r):
     return [r[0], ""]
 
 
-def compare(r0, r1, what, seed=0):
+def compare(r0, r1, what, seed=0, raw=False):
+    if raw and r0[0] == "ok" and r1[0] == "ok":
+        try:
+            same = norm_text(r0[1]) == norm_text(r1[1])
+        except ps.PumlSyntaxError:
+            same = r0[1] == r1[1]
+        if not same:
+            raise Violation(f"{what}: different diagrams for one branch-"
+                            f"count job set:\n{r0[1]}\n{r1[1]}")
+        return
+    _compare(r0, r1, what, seed)
+
+
+def _compare(r0, r1, what, seed=0):
     if r0[0] != r1[0] or (r0[0] == "exc" and r0[1] != r1[1]):
         def d(r):
             return "a diagram" if r[0] == "ok" else \
@@ -112,7 +128,73 @@ def ingest_model(pv):
     return learn.model_of_events(ev)
 
 
+def bcnt_jobs(spec):
+    """Branch-count job sets (an upstream feature outside the reference
+    semantics): a chain of `pre` events, then n parallel copies of a chain of
+    `rep` events for every n in `counts`, then optionally a common tail."""
+    jobs = []
+    for n in spec["counts"]:
+        j = []
+        for i in range(spec["pre"]):
+            j.append((f"P{i}", frozenset([i - 1]) if i else frozenset()))
+        last = len(j) - 1
+        ends = []
+        for _ in range(n):
+            prev = last
+            for r in range(spec["rep"]):
+                j.append((f"R{r}", frozenset([prev])))
+                prev = len(j) - 1
+            ends.append(prev)
+        if spec.get("tail"):
+            j.append(("T", frozenset(ends)))
+        jobs.append(tuple(j))
+    return jobs
+
+
+def norm_text(text):
+    """normal form up to branch order that keeps the complete event lines
+    (branch-count annotations included)"""
+    return norm(ps.parse_puml(text.replace(",", "\u201a")))
+
+
+def run_bcnt(case, ctx=None):
+    jobs = bcnt_jobs(case["bcnt"])
+    rng = random.Random(case["sched"] ^ 0x5EED)
+    pv0 = [learn.job_to_pv(j, "job", rng=rng) for j in jobs]
+    pv1, desc = present.present(jobs, case["pres"], "job")
+    if ctx:
+        ctx.record(case, len(set(case["bcnt"]["counts"])) >= 2,
+                   ["branch_counts"] + [f"pres:{k}" for k, v in desc.items()
+                                        if v and k not in ("ids", "ts_shift")])
+    learn.SCHED.reseed(case["sched"])
+    m0 = ingest_model(pv0)
+    learn.SCHED.reseed(case["sched1"])
+    m1 = ingest_model(pv1)
+    if m0 != m1:
+        bad = sorted(t for t in set(m0) | set(m1) if m0.get(t) != m1.get(t))
+        raise Violation("ingested models differ between the two "
+                        f"presentations ({desc}) for event types {bad}: "
+                        f"{[(m0.get(t), m1.get(t)) for t in bad[:2]]}")
+    r0 = learn.learn_pv(pv0, "job", case["sched"], nodes_hint=8)
+    r1 = learn.learn_pv(pv1, "job", case["sched1"], nodes_hint=8)
+    if r0[0] != r1[0] or (r0[0] == "exc" and r0[1] != r1[1]):
+        raise Violation(f"branch-count job set, two presentations ({desc}): "
+                        f"outcomes {r0[:2]} and {r1[:2]}")
+    if r0[0] == "ok":
+        try:
+            same = norm_text(r0[1]) == norm_text(r1[1])
+        except ps.PumlSyntaxError:
+            same = r0[1] == r1[1]
+        if not same:
+            raise Violation(
+                f"branch-count job set, two presentations ({desc}) give "
+                f"different diagrams:\n{r0[1]}\n{r1[1]}")
+    return r0
+
+
 def run_case(case, ctx=None):
+    if "bcnt" in case:
+        return run_bcnt(case, ctx)
     m = pvcase.materialise(case)
     if m.too_large or not m.jobs:
         if ctx:
@@ -156,10 +238,13 @@ def run_case(case, ctx=None):
 
 def first_outcome(case):
     """Outcome of learning the job set as enumerated (schedule seed s0)."""
-    m = pvcase.materialise(case)
+    if "bcnt" in case:
+        jobs = bcnt_jobs(case["bcnt"])
+    else:
+        jobs = pvcase.materialise(case).jobs
     rng = random.Random(case["sched"] ^ 0x5EED)
-    pv0 = [learn.job_to_pv(j, "job", rng=rng) for j in m.jobs]
-    types = len({t for j in m.jobs for t, _ in j})
+    pv0 = [learn.job_to_pv(j, "job", rng=rng) for j in jobs]
+    types = len({t for j in jobs for t, _ in j})
     return learn.learn_pv(pv0, "job", case["sched"], nodes_hint=types)
 
 
@@ -192,7 +277,8 @@ def replay(case):
             base = {k: v for k, v in case.items() if k != "cross"}
             r0 = first_outcome_under(base, c["h0"])
             r1 = first_outcome_under(base, c["h1"])
-            compare(r0, r1, f"PYTHONHASHSEED {c['h0']} vs {c['h1']}")
+            compare(r0, r1, f"PYTHONHASHSEED {c['h0']} vs {c['h1']}",
+                    raw="bcnt" in base)
             return None
         run_case(dict(case, force=True))
     except Violation as v:
@@ -212,7 +298,16 @@ def strategy():
 
     @st.composite
     def build(draw):
-        c = draw(pvcase.cases())
+        if draw(st.integers(0, 9)) == 0:
+            c = {"bcnt": {"pre": draw(st.integers(1, 3)),
+                          "rep": draw(st.integers(1, 3)),
+                          "tail": draw(st.booleans()),
+                          "counts": draw(st.lists(st.integers(1, 4),
+                                                  min_size=1, max_size=4,
+                                                  unique=True))},
+                 "sched": draw(st.integers(0, 2**31 - 1))}
+        else:
+            c = draw(pvcase.cases())
         c["pres"] = draw(st.integers(0, 2**31 - 1))
         c["sched1"] = draw(st.integers(0, 2**31 - 1))
         return c
@@ -267,7 +362,8 @@ def cross_check(results, hashseeds):
             r0, r1 = tuple(ba[h]["r"]), tuple(bb[h]["r"])
             try:
                 compare(r0, r1, f"PYTHONHASHSEED {hashseeds[i % len(hashseeds)]}"
-                        f" vs {hashseeds[(i + half) % len(hashseeds)]}")
+                        f" vs {hashseeds[(i + half) % len(hashseeds)]}",
+                        raw="bcnt" in ba[h]["case"])
             except Violation as v:
                 case = dict(ba[h]["case"])
                 case["cross"] = {"r0": list(r0), "r1": list(r1),
